@@ -25,6 +25,10 @@ POOL = [
     ['a', 'big', ['bigger', 'biggest']], ['a', 'nice', []], ['a', 'late', []], ['a', 'er', []],
     ['a', 'lat', []], ['s', 'big', []], ['s', 'nic', []], ['s', 'nice', ['nicer']],
     ['r', 'well', ['better']], ['r', 'fast', []], ['x', 'fast', ['faster']], ['u', 'bakes', []],
+    # a query that is the lemma of one word and a further form of another word of the same pos
+    ['v', 'saw', []], ['v', 'see', ['saw', 'seen']], ['a', 'better', []], ['a', 'good', ['better', 'best']],
+    ['n', 'geese', []], ['n', 'axes', []], ['r', 'better', []], ['v', 'found', ['founded']],
+    ['v', 'find', ['found']], ['n', 'lives', []], ['n', 'life', ['lives']],
 ]
 
 
@@ -39,9 +43,11 @@ def queries_for(words, rng, n):
                     qs.add(lemma[:len(lemma) - len(repl)] + suf)
                 qs.add(lemma + suf)
     qs.update(['s', 'es', 'ing', 'men', 'er', 'est', 'ed', 'ies', 'xes', 'xyz', '', 'Cats', 'ices'])
-    qs = sorted(qs)
-    if len(qs) > n:
-        qs = rng.sample(qs, n)
+    stored = sorted({w[1] for w in words} | {f for w in words for f in w[2]})
+    rest = sorted(qs - set(stored))
+    if len(rest) + len(stored) > n:
+        rest = rng.sample(rest, max(0, n - len(stored)))
+    qs = stored + rest
     poses = ['~', 'n', 'v', 'a', 's', 'r', 'x']
     return [[q, p] for q in qs for p in (poses if rng.random() < 0.35 else
                                          ['~', rng.choice(poses[1:])])]
@@ -74,7 +80,7 @@ def c17(tier: str) -> int:
     jd = tlc_judge('Judge_C17', recs, cfg='Judge.cfg', shards=NCPU)
     v.add_judgement('Judge_C17', jd, {x['id']: x for x in recs}, nontrivial=len(cases))
     v.cov['calls'] = sum(len(x.get('calls', [])) for x in recs)
-    v.cov['rule'] = ('random lexicons over a pool of 46 words chosen so that each of the 24 rules fires and '
+    v.cov['rule'] = ('random lexicons over a pool of 57 words chosen so that each of the 24 rules fires and '
                      'collides (ax/axe/axis, wolf/wolve, man/men, lemmas equal to a bare suffix, a/s twins, '
                      'irregular forms shared between words and parts of speech) x queries (every lemma with every '
                      'rule suffix attached, stored forms, bare suffixes, unrelated strings) x pos in '
